@@ -98,6 +98,10 @@ def run_repro(ctx, n):
     rng = random.Random(ctx.seed * 3 + 14)
     seeds = [rng.randrange(1, 2 ** 31) for _ in range(n)]
     viol, samples = [], []
+    ncut = 0
+
+    def cut(run):
+        return run["digest"] == "raised:RunTimeout"
     # (b) fresh processes, different hash seeds (16 processes per hash seed value)
     outs = {}
     procs = []
@@ -117,7 +121,7 @@ def run_repro(ctx, n):
         a = run_once(spec, 12345 + s % 1000)
         b = run_once(spec, 999 + s % 777)
         inproc[s] = (spec, a, b)
-        if a["digest"] != b["digest"]:
+        if a["digest"] != b["digest"] and not (cut(a) or cut(b)):
             viol.append({"key": "C14/in-process", "what": f"seed {s} (engines {[l['engine'] for l in spec['levels']]}, random_seed={spec['random_seed']}): two runs in one process with different prior "
                          f"global RNG states built different trees ({a['demes']} vs {b['demes']} demes, {a['individuals']} vs {b['individuals']} individuals)", "seed": s, "spec": spec, "replay_fn": "repro"})
     for hs, p in procs:
@@ -132,6 +136,9 @@ def run_repro(ctx, n):
     for s in seeds:
         spec, a, b = inproc[s]
         o = outs.get(s, {})
+        if cut(a) or any(cut(j) for j in o.values()):
+            ncut += 1            # a run cut off by the per-run limit is not compared with the others
+            continue
         ds = {hs: j["digest"] for hs, j in o.items()}
         if len(ds) == 2:
             compared += 1
@@ -146,6 +153,7 @@ def run_repro(ctx, n):
         spec = inproc[s][0]
         k = "/".join(l["engine"] for l in spec["levels"])
         dist[k] = dist.get(k, 0) + 1
+    dist["not-compared:run-cut-off-by-the-time-limit"] = ncut
     return {"violations": viol[:10], "evaluations": len(seeds), "cross_process_compared": compared, "samples": samples, "distribution": dist,
             "distinct_nontrivial": len({(tuple(l["engine"] for l in inproc[s][0]["levels"]), inproc[s][0]["hibernation"]) for s in seeds if inproc[s][1]["demes"] > 1}),
             "notes": {"runs_total": len(seeds) * 4, "seed_zero_cases": sum(1 for s in seeds if inproc[s][0]["random_seed"] == 0), "runs_that_raised": sum(1 for s in seeds if inproc[s][1]["error"])}}
